@@ -206,4 +206,13 @@ PROPS = {
                "Kernel scheduling inside epoll/mio is not controlled in regime F (repeated sampling with jitter); blocked = asleep in one syscall at two samples, or spinning without returning (CPU time accrues).",
                "cases = (member scripts, add points, drop points, thread assignment, regime, shuffle, select cadence, EINTR mask); non-trivial = more than 10 members ready at one select, or a multi-packet message beside small ones, or an add after traffic, or >=1 injected EINTR; distinct = distinct (build, canonical JSON)"),
     ),
+    "C07": dict(
+        jobs=lambda tier: [dict(build="os", params={"sndbuf": "4096", "cases": "2400" if tier == "quick" else "48000"}, shards=8 if tier == "quick" else 16),
+                           dict(build="inproc", params={"sndbuf": "4096", "cases": "800" if tier == "quick" else "16000"}, shards=4 if tier == "quick" else 8)],
+        meta=M("exploration",
+               "generated concurrent route registrations and traffic against real router threads, per-route handler logs with drop guards as history oracle",
+               "1..32 routes (callback, forwarding to an existing crossbeam sender, to a new crossbeam receiver) are registered from 1..8 threads on a per-worker RouterProxy or on the global ROUTER; each route has 0..50 small/multi-packet messages of which a generated prefix is queued before registration and the rest is sent while other registrations and traffic are in flight; senders are dropped at the end. Each route's handler log must be exactly its own messages 0..n-1 in order, whole; the callback's drop guard must fire exactly once, after the last message and after the sender drop began; crossbeam routes must yield the same sequence and then disconnect; everything is awaited under the hang rule.",
+               "Scheduling between the router thread and the registering threads is not controlled (repeated sampling with generated jitter); C07 never stops a router (C17 does).",
+               "cases = (routes with kind, message script, prefix length, registering thread, jitter; global or own proxy); non-trivial = >=2 routes registered from different threads with messages queued before registration; distinct = distinct (build, canonical JSON)"),
+    ),
 }
